@@ -118,6 +118,13 @@ def add_synthetic_streams(env, ctx, res) -> None:
         assert len(sf2.segments) == 10
     env.add_stream('sy2', title='Synthetic: no tfdt, numbered from 5, explicit base offsets',
                    files={'sy2_v1': video2, 'sy2_a1': audio2})
+    # two video Representations of the same timing whose fragments are numbered from 6 and from 1: the files of
+    # one AdaptationSet need not start at the same sequence number. Only a manifest with one SegmentTemplate
+    # per Representation (manifest_ef.mpd) can describe that: the checks ask this stream for that template only
+    v6 = restructure((FIXTURES / 'bbb' / 'bbb_v6.mp4').read_bytes(), first_sequence=6)
+    env.add_stream('sy9', title='Synthetic: Representations numbered from 6 and from 1',
+                   files={'sy9_v1': v6, 'sy9_v2': src, 'sy9_a1': (FIXTURES / 'bbb' / 'bbb_a1.mp4').read_bytes()})
+    res.count('synthetic.streams')
     res.count('synthetic.streams')
 
 
